@@ -22,7 +22,7 @@ func init() {
 
 // ---- one round of an OnInput history
 type inputRound struct {
-	Mut  string `json:"mutation"` // append | reset-append | overwrite | none
+	Mut  string `json:"mutation"` // append | reset-append | overwrite | none | poke | replace (another column object)
 	Rows int    `json:"rows"`
 	Ret  string `json:"return"` // nil | eof | wrapped-eof | error
 }
@@ -94,6 +94,16 @@ func runInsertPlan(r *Rng, sc *simClient, q insertQuery, p insertPlan, streamSch
 				add := genCol(r, t, rd.Rows, genOpts{})
 				_ = fillColumn(cols[i], add)
 				cur[i] = concatCols(cur[i], add)
+			}
+		case "replace":
+			// the callback installs a DIFFERENT column object in the Input slice (prebuilt chunks, double buffering)
+			for i, t := range p.types {
+				add := genCol(r, t, rd.Rows, genOpts{uniform: p.uniform})
+				col, _ := newColumn(t)
+				_ = fillColumn(col, add)
+				cols[i] = col
+				input[i].Data = col
+				cur[i] = add
 			}
 		case "reset-append", "overwrite", "poke":
 			k := rd.Rows
@@ -604,6 +614,28 @@ func runC09(c *Ctx) {
 		c02One(c, r.Fork(), o, "C09")
 	}
 	c02LargeBlocks(c, r.Fork(), "C09")
+	// directed: the callback puts another column object into the Input slice each round (prebuilt chunks); the initial
+	// column is an empty placeholder or holds rows; the last chunk comes together with io.EOF
+	for _, ts := range []string{"Int64", "String", "LowCardinality(String)", "Array(UInt8)"} {
+		t, err := parseCH(ts)
+		if err != nil {
+			continue
+		}
+		for _, comp := range []ch.Compression{ch.CompressionDisabled, ch.CompressionLZ4} {
+			for _, initial := range []int{0, 2} {
+				for _, nrounds := range []int{1, 3} {
+					p := insertPlan{types: []*TNode{t}, names: []string{"c0"}, initial: initial, hasCB: true}
+					for k := 0; k < nrounds-1; k++ {
+						p.rounds = append(p.rounds, inputRound{Mut: "replace", Rows: 2 + k, Ret: "nil"})
+					}
+					p.rounds = append(p.rounds, inputRound{Mut: "replace", Rows: 3, Ret: "eof"})
+					c02ForcedPlan = &p
+					c02One(c, r.Fork(), simOpts{compression: comp, serverRev: 54460, readTimeout: 80 * time.Millisecond}, "C09")
+					c02ForcedPlan = nil
+				}
+			}
+		}
+	}
 	// directed: rows rewritten in place through the column's exported storage (no Reset, no Append), the row count staying
 	// the same from round to round — on LowCardinality (whose dictionary and keys are derived state), on a zero-copy column
 	for _, ts := range []string{"LowCardinality(String)", "LowCardinality(UInt32)", "UInt64", "Int8"} {
